@@ -120,6 +120,9 @@ def pool(tier):
         "y ~ (1 | g:h) + (0 + x | h:g)", "y ~ (x | g:h) + (0 + f | h:g)", "y ~ (1 | I(k):g)", "y ~ (x | np.floor(z))", "y ~ (0 + x | I(k)) + (1 | np.round(x))",
         "y ~ I(f)", "y ~ 0 + up(f)", "y ~ up(f):x", "y ~ x + (x | up(g))", "y ~ (0 + I(f) | g)",
     ]
+    # helper terms inserted for full rank whose numeric part is a stateful transform
+    for t in ("center(x)", "scale(x)", "bs(x, df=3)", "poly(x, 2)", "minmax(x)", "scale(center(x))"):
+        out += [f"y ~ {t} + g:h:{t}", f"y ~ g:h:{t}", f"y ~ 0 + f:g:{t}", f"y ~ f + f:g:{t}", f"y ~ 0 + h:{t}:g + ({t} | g)"]
     if tier == "thorough":
         for a in NUMT[:11]:
             for c in CATT:
@@ -221,6 +224,20 @@ def check_case(case, acc):
             elif not np.allclose(got, want, rtol=1e-9, atol=1e-12, equal_nan=True):
                 j = int(np.argmax(np.abs(got - want).max(axis=0)))
                 problems.setdefault(("rows-reproduced", "values"), f"{f!r} ({variant}): {which} on rows {idx} differs from the training rows (column {j}: {got[:, j][:3]} vs {want[:, j][:3]})")
+    # one work frame refilled in place with successive chunks of training rows (same object, other contents)
+    work = df.iloc[[0, 1]].reset_index(drop=True)
+    for idx in ([0, 1], [5, 2], [7, 7], [3, 4], [5, 2]):
+        for col in work.columns:
+            work[col] = df[col].iloc[idx].values
+        for which, M, train in mats:
+            acc.calls += 1
+            try:
+                got = np.asarray(M.evaluate_new_data(work).design_matrix, dtype=float)
+            except Exception as e:
+                problems.setdefault(("rows-reproduced", "refilled-" + exc_sig(e)), f"{f!r} ({variant}): {which} on a work frame refilled in place with rows {idx} raised {type(e).__name__}: {e}")
+                continue
+            if got.shape != train[idx].shape or not np.allclose(got, train[idx], rtol=1e-9, atol=1e-12, equal_nan=True):
+                problems.setdefault(("rows-reproduced", "refilled"), f"{f!r} ({variant}): {which} on a work frame refilled in place with rows {idx} differs from the training rows")
     # chained: the object returned for one frame evaluates another frame
     for which, M, train in mats:
         for idx1, idx2 in (([0, 3], [5, 1, 1]), ([2], list(range(N))), (list(range(N))[::-1], [4])):
